@@ -74,6 +74,11 @@ def cases(tier, seed):
                 out.append({"kind": "herm", "cls": f"herm:{sign}:packed", "ratio": 0.8, "sign": sign, "idx": idx, "seed": seed,
                             "maxn": maxn, "nseeds": 4 if tier == "quick" else 8, "n": n_, "packed": True})
                 idx += 1
+    # "from every random start": MANY starts on one matrix (12000 in the quick tier, 120000 in the thorough tier) for the clustered spectra
+    for rep in range(12 if tier == "quick" else 120):
+        out.append({"kind": "herm", "cls": "herm:many_starts", "ratio": 0.8, "sign": ["neg", "neg", "pos"][rep % 3], "idx": idx, "seed": seed,
+                    "maxn": maxn, "nseeds": 1000, "n": 8, "packed": "pm"})
+        idx += 1
     for cls in ("generic", "zero", "nilpotent", "lower_nilpotent", "zero_first_row", "zero_last_column", "rank1", "unitary", "upper_tri", "scaled"):
         for k in range(8 if tier == "quick" else 60):
             out.append({"kind": "bounded", "cls": "bounded:" + cls, "c": cls, "idx": idx, "seed": seed, "maxn": maxn, "nseeds": nseeds})
@@ -101,6 +106,10 @@ def _spectrum(rng, n, ratio, sign, packed=False):
         # change per step grows for several iterations before it decays - "no improvement over the last steps" is not convergence
         rest = ratio * lam1 * (1.0 - 0.0625 * rng.random(n - 1))
     rest[0] = ratio * lam1
+    if packed == "pm":
+        # all non-dominant eigenvalues AT the gap limit with alternating signs (+r, -r, +r, ...): the iterate turns slowly out of a large
+        # cluster; a handful of random starts in ten thousand make two consecutive steps equally long in the transient
+        return np.concatenate([[lam1 if sign.startswith("pos") else -lam1], ratio * lam1 * np.where(np.arange(n - 1) % 2 == 0, 1.0, -1.0)])
     if n >= 4 and rng.random() < 0.5:
         rest[2] = rest[1]                      # repeated non-dominant eigenvalue
     if sign == "pos":
@@ -140,7 +149,7 @@ def _herm(spec, ctx, R):
     decoupled = sign.startswith("decoupled_first")
     if decoupled and n == 1:
         decoupled = False
-    e = _spectrum(rng, n - 1 if decoupled else n, r, "pos" if sign.endswith("pos") else ("neg_mixed" if decoupled else sign), packed=bool(spec.get("packed")))
+    e = _spectrum(rng, n - 1 if decoupled else n, r, "pos" if sign.endswith("pos") else ("neg_mixed" if decoupled else sign), packed=spec.get("packed") or False)
     if spec.get("packed"):
         ctx.hit("spectrum:packed_below_gap")
     scale = [1.0, 1.0, 1e-3, 1e3, 1e-9, 1e-13, 1e9, 1.0, 2.0 ** -56, 2.0 ** -60, 1e-30, 1e30, 2.0 ** -200][spec["idx"] % 13]
